@@ -303,7 +303,7 @@ func c19Clnt(x *Ctx) {
 					return
 				}
 				for k := 0; k < nops; k++ {
-					switch r.Intn(6) {
+					switch r.Intn(7) {
 					case 0:
 						clnt.Read(fid, uint64(k*100), uint32(r.Pick(0, 1, 40, int(msize)/2)))
 					case 1:
@@ -332,6 +332,34 @@ func c19Clnt(x *Ctx) {
 					case 5:
 						f := go9p.FidFile(fid, 0)
 						f.ReadAt(make([]byte, 30), int64(k))
+					case 6:
+						// the other requests of the Tag interface, on fids of the caller's own; some are refused
+						ch := make(chan *go9p.Req, 8)
+						tag := clnt.TagAlloc(ch)
+						nf, nf2 := clnt.FidAlloc(), clnt.FidAlloc()
+						pending := 0
+						for _, err := range []error{
+							tag.Walk(fid, nf, []string{[]string{"x", "nope"}[r.Intn(2)]}),
+							tag.Walk(fid, nf2, []string{"short", "y"}),
+							tag.Stat(fid),
+						} {
+							if err == nil {
+								pending++
+							}
+						}
+						for ; pending > 0; pending-- {
+							<-ch
+						}
+						if tag.Open(nf, go9p.OREAD) == nil {
+							<-ch
+						}
+						if tag.Create(nf2, "n", 0o644, go9p.OWRITE, "") == nil {
+							<-ch
+						}
+						if tag.Clunk(nf) == nil {
+							<-ch
+						}
+						clnt.TagFree(tag)
 					}
 				}
 				clnt.Clunk(fid)
